@@ -8,10 +8,6 @@ import (
 	eventbus "github.com/jilio/ebu"
 )
 
-type evD struct {
-	N int `json:"n"`
-}
-
 //verif:entry property=C09 tier=both bounds="bus on the durable-streams store (real client library over the model server): K publishes through PublishContext, each with its own context that is cancelled right after that publish has returned (or, symbolically, kept alive); one record per publish, in order, decoding to the published value; no persistence error" cover="published" K_quick=3 K_thorough=4
 func harnessC09DurablePublishes() {
 	K := vParam("K", 3)
